@@ -55,12 +55,17 @@ type harness struct {
 	n     int
 }
 
+// chanSender is the harness's stand-in for a control connection's dispatcher: what the controller sends is queued.
+type chanSender chan msg.Message
+
+func (c chanSender) Send(m msg.Message) error { c <- m; return nil }
+
 func newHarness(x *vs.Exec) *harness {
 	h := &harness{x: x}
 	h.c, _ = nathole.NewController(time.Hour)
 	h.sidCh, _ = h.c.ListenClient("p", sk, []string{"*"})
 	h.vCh, h.cCh, h.oCh = make(chan msg.Message, 100), make(chan msg.Message, 100), make(chan msg.Message, 100)
-	h.vT, h.cT = transport.NewMessageTransporter(h.vCh), transport.NewMessageTransporter(h.cCh)
+	h.vT, h.cT = transport.NewMessageTransporter(chanSender(h.vCh)), transport.NewMessageTransporter(chanSender(h.cCh))
 	return h
 }
 
